@@ -26,6 +26,10 @@ func replayPath(t testing.TB, path string, count bool) {
 	}
 	registryMu.Lock()
 	fn := registry[sc.Sub]
+	if fn == nil {
+		// "<sub>-concurrent" cases (see Prop.Concurrent) are ordinary cases of <sub>
+		fn = registry[strings.TrimSuffix(sc.Sub, "-concurrent")]
+	}
 	registryMu.Unlock()
 	if fn == nil {
 		t.Fatalf("replay %s: unknown sub-check %q", path, sc.Sub)
